@@ -214,8 +214,8 @@ def _worker(c):
 
 def run(rec, tier, seed):
     if tier == 'quick':
-        widths = {'gauss': [0.5, 2.0], 'yukawa': [0.5, 2.0], 'expo': [0.7, 2.0], 'sphere': [1.03, 2.57]}
-        amps, nl = [1.0], 5
+        widths = {'gauss': [0.5, 1.0, 2.0], 'yukawa': [0.5, 1.0, 2.0], 'expo': [0.7, 2.0], 'sphere': [1.03, 2.57]}
+        amps, nl = [1.0, -3.7], 5
     else:
         widths = {'gauss': [0.5, 0.75, 1.0, 2.0, 3.0], 'yukawa': [0.5, 1.0, 2.0, 3.0], 'expo': [0.7, 1.0, 2.0], 'sphere': [1.03, 2.57, 4.11]}
         amps, nl = [1.0, -3.7], 7
